@@ -24,12 +24,16 @@ namespace c05
 
 struct event_log
 {
-  std::vector<int> cp, mv, ram;
+  std::vector<int> cp, mv, ram, lost;
+  // values made from nothing: by the user's functions (`derive`, fresh values) or read from a string
+  int made{0};
   void clear()
   {
     cp.clear();
     mv.clear();
     ram.clear();
+    lost.clear();
+    made = 0;
   }
 };
 inline event_log g_log;
@@ -43,9 +47,9 @@ struct tok_t
   bool live;
   bool orig;
 
-  explicit tok_t(int const _id) noexcept : id{_id}, live{true}, orig{false} {}
-  // only for fcppt::extract_from_string (instantiated by options::option::parse, never executed here)
-  explicit tok_t(fcppt::no_init const &) noexcept : id{0}, live{true}, orig{false} {}
+  explicit tok_t(int const _id) noexcept : id{_id}, live{true}, orig{false} { ++g_log.made; }
+  // for fcppt::extract_from_string (options::argument / option read a value from the command line)
+  explicit tok_t(fcppt::no_init const &) noexcept : id{0}, live{true}, orig{false} { ++g_log.made; }
 
   tok_t(tok_t const &_o) requires Copyable : id{_o.id}, live{_o.live}, orig{false}
   {
@@ -61,6 +65,7 @@ struct tok_t
       g_log.cp.push_back(_o.id);
       if (!_o.live)
         g_log.ram.push_back(_o.id);
+      overwritten();
       id = _o.id;
       live = _o.live;
     }
@@ -70,13 +75,15 @@ struct tok_t
   {
     if (this != &_o)
     {
+      overwritten();
       id = _o.id;
       live = _o.live;
       _o.moved_out();
     }
     return *this;
   }
-  ~tok_t() = default;
+  // a live value that is destroyed (or overwritten by an assignment) is lost
+  ~tok_t() { overwritten(); }
 
   // every use of the payload goes through here
   int read() const
@@ -93,6 +100,11 @@ struct tok_t
   friend bool operator<(tok_t const &_a, tok_t const &_b) { return _a.read() < _b.read(); }
 
 private:
+  void overwritten() noexcept
+  {
+    if (live)
+      g_log.lost.push_back(id);
+  }
   void moved_out() noexcept
   {
     if (orig)
@@ -216,7 +228,8 @@ inline std::string finish(std::string const &_tag, std::string const &_res, std:
   std::string r{"t=" + _tag + " r=" + _res};
   for (std::size_t i = 0; i < _args.size(); ++i)
     r += " a" + std::to_string(i) + "=" + _args[i];
-  r += " cp=" + ids(_log.cp, true) + " mv=" + ids(_log.mv, false) + " ram=" + ids(_log.ram, true);
+  r += " cp=" + ids(_log.cp, true) + " mv=" + ids(_log.mv, false) + " ram=" + ids(_log.ram, true) + " lost=" + ids(_log.lost, false) +
+       " mk=" + std::to_string(_log.made);
   return r;
 }
 
